@@ -33,6 +33,7 @@ type vfEv struct {
 	A    string `json:"a,omitempty"`   // address argument / result
 	Tag  int64  `json:"tag,omitempty"` // payload tag (identifies the datagram / the scripted read)
 	Sid2 uint32 `json:"sid2,omitempty"`
+	NB   int    `json:"nb,omitempty"` // read / send records: payload length + 1 (an empty datagram is 1; 0 = not recorded)
 }
 
 type vfRecv struct {
@@ -44,6 +45,21 @@ type vfRead struct {
 	from string
 	tag  int64
 	err  bool
+	// short: the datagram does not carry the 8-byte tag: its payload is n bytes (n may be 0: an empty UDP datagram is a
+	// datagram) and the tag travels in the source address instead (vfTagAddr), which the reply loop copies into the message
+	short bool
+	n     int
+}
+
+// source address that carries the tag of a datagram whose payload cannot
+func vfTagAddr(tag int64) string { return fmt.Sprintf("r%d.example:53", tag) }
+
+func vfAddrTag(a string) int64 {
+	var v int64
+	if n, err := fmt.Sscanf(a, "r%d.example:53", &v); n == 1 && err == nil && vfTagAddr(v) == a {
+		return v
+	}
+	return -1
 }
 
 type vfEnv struct {
@@ -66,6 +82,12 @@ type vfEnv struct {
 	overlaps  int                       // slow dials that were still in progress at the sweep that selects their entry
 	slowCloseEnd int64                  // fake-clock ms at which the latest slow logger.Close() call returns
 	curSid   uint32                     // session id of the message the receive loop is feeding
+	slowSock   int                      // the next n socket Close() calls of the final cleanup (receive loop's goroutine, after the connection was lost) are slow
+	slowSockMs int64                    // ... each takes up to this many ms of the fake clock before it takes effect
+	lost       bool                     // ReceiveMessage has returned its error
+	rlGid      uint64                   // goroutine of the receive loop (the caller of ReceiveMessage)
+	sockSlept  int                      // slow socket closes that really slept
+	sockTicks  int                      // sweep ticks that fell inside a slow socket close of the final cleanup
 	lastNew  uint32                     // session id of the last logger.New (owner of the next socket)
 	socks    []*vfConn
 }
@@ -118,7 +140,9 @@ func (e *vfEnv) ReceiveMessage() (*protocol.UDPMessage, error) {
 	r := <-e.recv
 	e.mu.Lock()
 	defer e.mu.Unlock()
+	e.rlGid = vfGid()
 	if r.err != nil {
+		e.lost = true
 		e.add(vfEv{K: "recverr"})
 		return nil, r.err
 	}
@@ -132,16 +156,19 @@ func (e *vfEnv) SendMessage(buf []byte, m *protocol.UDPMessage) error {
 	e.mu.Lock()
 	defer e.mu.Unlock()
 	tag := vfTag(m.Data)
+	if tag < 0 {
+		tag = vfAddrTag(m.Addr) // a datagram too short for the tag: it came with a tagged source address
+	}
 	sock := -1
 	if tag >= 0 {
 		sock = int(tag >> 24)
 	}
 	if e.sendFail > 0 {
 		e.sendFail--
-		e.add(vfEv{K: "send", Sid: m.SessionID, Sock: sock, Ok: false, A: m.Addr, Tag: tag})
+		e.add(vfEv{K: "send", Sid: m.SessionID, Sock: sock, Ok: false, A: m.Addr, Tag: tag, NB: len(m.Data) + 1})
 		return errVFFault
 	}
-	e.add(vfEv{K: "send", Sid: m.SessionID, Sock: sock, Ok: true, A: m.Addr, Tag: tag})
+	e.add(vfEv{K: "send", Sid: m.SessionID, Sock: sock, Ok: true, A: m.Addr, Tag: tag, NB: len(m.Data) + 1})
 	return nil
 }
 
@@ -185,7 +212,7 @@ func (e *vfEnv) UDP(reqAddr string) (UDPConn, error) {
 		e.add(vfEv{K: "dial", Sid: e.lastNew, Sock: -1, Ok: false, A: reqAddr})
 		return nil, errVFDenied
 	}
-	c := &vfConn{env: e, sock: len(e.socks), owner: e.lastNew, rd: make(chan vfRead, 4096), closedCh: make(chan struct{})}
+	c := &vfConn{env: e, sock: len(e.socks), owner: e.lastNew, rd: make(chan vfRead, 4096), closedCh: make(chan struct{}), busy: true}
 	e.socks = append(e.socks, c)
 	e.add(vfEv{K: "dial", Sid: e.lastNew, Sock: c.sock, Ok: true, A: reqAddr})
 	return c, nil
@@ -289,6 +316,71 @@ func (e *vfEnv) slowBlock(ms int64) {
 	}
 }
 
+// ---- slow socket Close() inside the final cleanup
+//
+// Close() on an outbound socket may take time (the OS, a wrapped conn flushing, a hooked outbound).  The final
+// cleanup (cleanup(false), on the receive loop's goroutine once ReceiveMessage failed) walks its list of entries
+// while the idle sweeper keeps ticking until Run has returned: with a slow Close() a tick lands INSIDE the final
+// cleanup and the two cleanup() calls overlap.  The call sleeps on the fake clock first and takes effect (closed
+// channel, "close" record) when the sleep is over, so the socket's reply loop stays parked in ReadFrom meanwhile.
+//
+// CloseWithErr holds the entry's connLock across conn.Close(), and a sync.Mutex wait is not a durable block for
+// testing/synctest (see slowBlock): the call only sleeps while nobody else can want that lock:
+//   - only calls made by the receive loop's goroutine after the connection was lost are slow (the sweeper's and the
+//     reply loops' own closes are not: the final cleanup wants every entry);
+//   - the socket's reply loop is parked in ReadFrom with nothing queued (it cannot reach CloseWithErr by itself);
+//   - the sleep ends 1 ms before the first tick T* at which the entry can be selected as idle (its last traffic, from
+//     the log: latest datagram of its id received / read from its socket); if T* is not in the future the sweep
+//     that selects it may be in progress already and the call does not sleep.
+func (e *vfEnv) slowSockClose(c *vfConn) {
+	e.mu.Lock()
+	if e.slowSock <= 0 || e.slowSockMs <= 0 || !e.lost || e.timeoutMs <= 0 || c.closes > 0 || c.busy || len(c.rd) > 0 || vfGid() != e.rlGid {
+		e.mu.Unlock()
+		return
+	}
+	iv := int64(idleCleanupInterval / time.Millisecond)
+	now := int64(time.Since(e.t0) / time.Millisecond)
+	last := int64(-1)
+	for i := len(e.log) - 1; i >= 0; i-- {
+		ev := e.log[i]
+		if (ev.K == "recv" && ev.Sid == c.owner) || (ev.K == "read" && ev.Ok && ev.Sock == c.sock) {
+			last = ev.T
+			break
+		}
+	}
+	tstar := ((last+e.timeoutMs)/iv + 1) * iv // first tick with tick - last > timeout
+	end := now + e.slowSockMs
+	if end > tstar-1 {
+		end = tstar - 1
+	}
+	if last < 0 || end <= now || (end < now+e.slowSockMs && end/iv == now/iv) {
+		// (the entry turns idle at the very next tick: a sleep cut short of it would use up the slow close without any
+		// tick inside it; the next socket on the cleanup's list gets it instead)
+		e.mu.Unlock()
+		return
+	}
+	e.slowSock--
+	e.sockSlept++
+	e.sockTicks += int(end/iv - now/iv)
+	c.closing = true
+	e.mu.Unlock()
+	time.Sleep(time.Duration(end-now) * time.Millisecond)
+}
+
+// goroutine id of the caller (only ever compared for equality)
+func vfGid() uint64 {
+	var buf [64]byte
+	n := runtime.Stack(buf[:], false)
+	var id uint64
+	for _, ch := range buf[len("goroutine "):n] {
+		if ch < '0' || ch > '9' {
+			break
+		}
+		id = id*10 + uint64(ch-'0')
+	}
+	return id
+}
+
 // vfPauser blocks the caller for a short REAL time: the request is served by a goroutine outside the synctest
 // bubble over channels made outside the bubble (blocking on those is not durable, so the fake clock stands still).
 type vfPauser struct {
@@ -355,11 +447,16 @@ type vfConn struct {
 	writeErr int // the next n writes fail; under env.mu
 	reads    int
 	writes   int
+	busy     bool // the reply loop is not inside ReadFrom (not spawned yet, relaying, or closing); under env.mu
+	closing  bool // a slow Close() is in progress (sleeping before it takes effect); under env.mu
 }
 
 func (c *vfConn) ReadFrom(b []byte) (int, string, error) {
 	var r vfRead
 	got := false
+	c.env.mu.Lock()
+	c.busy = false
+	c.env.mu.Unlock()
 	select {
 	case r = <-c.rd:
 		got = true
@@ -367,6 +464,7 @@ func (c *vfConn) ReadFrom(b []byte) (int, string, error) {
 	}
 	c.env.mu.Lock()
 	defer c.env.mu.Unlock()
+	c.busy = true
 	if c.closes > 0 || !got || r.err {
 		c.env.add(vfEv{K: "read", Sid: c.owner, Sock: c.sock, Ok: false})
 		if c.closes > 0 || !got {
@@ -375,8 +473,19 @@ func (c *vfConn) ReadFrom(b []byte) (int, string, error) {
 		return 0, "", errVFFault
 	}
 	c.reads++
+	if r.short {
+		// n bytes, none of them the tag (n == 0: ReadFrom returns 0, addr, nil - an empty datagram, not "nothing")
+		pl := make([]byte, r.n)
+		for i := range pl {
+			pl[i] = byte(0xa0 + (int(r.tag)+i)%64)
+		}
+		n := copy(b, pl)
+		from := vfTagAddr(r.tag)
+		c.env.add(vfEv{K: "read", Sid: c.owner, Sock: c.sock, Ok: true, A: from, Tag: r.tag, NB: n + 1})
+		return n, from, nil
+	}
 	n := copy(b, vfPayload(r.tag))
-	c.env.add(vfEv{K: "read", Sid: c.owner, Sock: c.sock, Ok: true, A: r.from, Tag: r.tag})
+	c.env.add(vfEv{K: "read", Sid: c.owner, Sock: c.sock, Ok: true, A: r.from, Tag: r.tag, NB: n + 1})
 	return n, r.from, nil
 }
 
@@ -403,8 +512,10 @@ func (c *vfConn) WriteTo(b []byte, addr string) (int, error) {
 }
 
 func (c *vfConn) Close() error {
+	c.env.slowSockClose(c)
 	c.env.mu.Lock()
 	defer c.env.mu.Unlock()
+	c.closing = false
 	c.closes++
 	if c.closes == 1 {
 		close(c.closedCh)
